@@ -416,26 +416,8 @@ func (s *scriptChooser) All(label string, n int) int {
 	return 0
 }
 
-// jpegStructures are JPEG streams whose marker structure is unusual: bare SOI / EOI markers
-// between the segments (nested and closed images), metadata after an EOI.  What the scanner
-// makes of them is its business; it must make the same of them whatever it scanned before.
+// jpegStructures: the marker-structure seeds (seeds.go) through the three JPEG entry points.
 func jpegStructures() []c04Victim {
-	base, _ := gen.BuildJPEG(nil, true) // SOI + image tail
-	tail := base.B[2:]
-	minMM := gen.EncodeTIFF(gen.MinimalRecord(), gen.CanonicalLayout(), binary.BigEndian, gen.AllDirs)
-	seg := func(m byte, p []byte) []byte {
-		return append([]byte{0xff, m, byte((len(p) + 2) >> 8), byte(len(p) + 2)}, p...)
-	}
-	toks := []struct {
-		name string
-		b    []byte
-	}{
-		{"SOI", []byte{0xff, 0xd8}},
-		{"EOI", []byte{0xff, 0xd9}},
-		{"Exif", seg(0xe1, append([]byte(gen.ExifPrefix), minMM.B...))},
-		{"XMP", seg(0xe1, append([]byte(gen.XMPPrefix), []byte("<x:xmpmeta xmlns:x=\"adobe:ns:meta/\"><rdf:RDF xmlns:rdf=\"http://www.w3.org/1999/02/22-rdf-syntax-ns#\"><rdf:Description xmlns:xmp=\"http://ns.adobe.com/xap/1.0/\" xmp:Rating=\"3\"/></rdf:RDF></x:xmpmeta>")...))},
-		{"COM", seg(0xfe, []byte("comment"))},
-	}
 	var eps []int
 	for i := range entryPoints {
 		switch entryPoints[i].name {
@@ -444,22 +426,11 @@ func jpegStructures() []c04Victim {
 		}
 	}
 	var out []c04Victim
-	var rec func(names []string, b []byte, depth int)
-	rec = func(names []string, b []byte, depth int) {
-		if len(names) > 0 {
-			data := append(append([]byte{0xff, 0xd8}, b...), tail...)
-			for _, e := range eps {
-				out = append(out, c04Victim{what: fmt.Sprintf("JPEG structure SOI %v image", names), data: data, entry: e})
-			}
-		}
-		if depth == 0 {
-			return
-		}
-		for _, t := range toks {
-			rec(append(append([]string{}, names...), t.name), append(append([]byte{}, b...), t.b...), depth-1)
+	for _, sd := range jpegStructureSeeds() {
+		for _, e := range eps {
+			out = append(out, c04Victim{what: sd.name, data: sd.doc.B, entry: e})
 		}
 	}
-	rec(nil, nil, 3)
 	return out
 }
 
